@@ -5,7 +5,8 @@
 set -e
 FL=${1:-rel}
 REPO=${REPO:-/repo}
-ROOT=/verif/.build
+VR=${VERIF_ROOT:-/verif}
+ROOT=$VR/.build
 LIB=$ROOT/lib/$FL
 DRV=$ROOT/drv/$FL
 CM=(-DMINIMAL=ON)
@@ -35,7 +36,7 @@ if [ ! -f $LIB/build.ninja ]; then
 fi
 ninja -C $LIB ascon_static >$LIB/ninja.log 2>&1 || { tail -30 $LIB/ninja.log >&2; exit 3; }
 [ $NODRV = 1 ] && exit 0
-H=/verif/harness
+H=$VR/harness
 # rebuild the driver when any harness source or the library is newer
 if [ ! -x $DRV/drv ] || [ -n "$(find $H $LIB/src/libascon_static.a -newer $DRV/drv -print -quit)" ]; then
   SHARES=$(grep -h "define ASCON_MASKED_.*SHARES\|define ASCON_MASKED_MAX" $LIB/version.h 2>/dev/null | tr '\n' ' ')
